@@ -15,7 +15,7 @@ from usim import time, Scope, Flag, Tracked, Resources, instant
 
 from ..engine import EQ, NE, GE, LE, LT, GT, AND, OR, NOT, IMPLIES, IFF, SBool
 from ..explore import Family
-from ..kit import Log, simulate, now, classify_run_exception, STATE
+from ..kit import Log, simulate, now, classify_run_exception, STATE, Fault
 from ..probe import Probe
 
 BOUNDS = ('expression shapes: X, ~X, X&Y, X|Y, ~(X&Y), ~(X|Y), (X&Y)|Z, (X|Y)&Z, ~~X, X&Y&Z with '
@@ -106,7 +106,7 @@ def build(shape, X, Y, Z):
     raise AssertionError(shape)
 
 
-def fam_cond(E, shapes, xk, yk, zk, nchanges=3, nwaiters=1, real=False):
+def fam_cond(E, shapes, xk, yk, zk, nchanges=3, nwaiters=1, real=False, fault_kinds=None):
     shape = shapes[E.pick('shape', len(shapes))]
     W = World(E)
     kx = xk[E.pick('kx', len(xk))]
@@ -128,6 +128,9 @@ def fam_cond(E, shapes, xk, yk, zk, nchanges=3, nwaiters=1, real=False):
     log = Log()
     holder = {}
     waiting = {}        # waiter -> True while suspended in the await
+    # optionally the driver itself is cancelled / interrupted at (c,p), e.g. in the middle of a
+    # change: whatever part of the change happened must still reach the waiters
+    fault = Fault(E, 'f', fault_kinds, hi=20, pmax=2) if fault_kinds else None
 
     async def sleeper():
         await (time + dtask)
@@ -176,7 +179,10 @@ def fam_cond(E, shapes, xk, yk, zk, nchanges=3, nwaiters=1, real=False):
             holder['cond'], holder['ref'] = build(shape, X, Y, Z)
             for i in range(nwaiters):
                 top.do(waiter(i), volatile=True)
-            top.do(driver())
+            if fault is not None:
+                fault.spawn(top, driver, log)
+            else:
+                top.do(driver())
             await (time + 60)
 
     state = {'last': None}
@@ -244,6 +250,13 @@ FAMILIES = [
                          yk=[TR, F2], zk=[F2, AFTER, BEFORE, DONE], nchanges=3),
            reach=['(X&Y)|Z', '(X|Y)&Z', '(X&Y)&(Z|X)', 'resumed'],
            bounds='depth-2 trees'),
+    Family('driver_fault', fam_cond,
+           quick=dict(shapes=['X'], xk=[F1, TR, RES], yk=[F2], zk=[F2], nchanges=1,
+                      fault_kinds=[Fault.CANCEL, Fault.INTERRUPT]),
+           thorough=dict(shapes=['X', 'X&Y'], xk=[F1, TR, RES], yk=[F2], zk=[F2], nchanges=2,
+                         fault_kinds=[Fault.CANCEL, Fault.INTERRUPT, Fault.CLOSE]),
+           reach=['resumed'],
+           bounds='the activity that changes the atoms is cancelled / interrupted at (c,p)'),
     Family('two_waiters', fam_cond,
            quick=dict(shapes=['X&Y'], xk=[TR], yk=[F2], zk=[F2], nchanges=2, nwaiters=2),
            thorough=dict(shapes=BASIC, xk=[F1, TR], yk=[F2, AFTER], zk=[F2], nchanges=3,
